@@ -616,7 +616,16 @@ class FmtStr:
         return self._s
 
     def __getitem__(self, index: Union[int, slice]) -> "FmtStr":
-        index = normalize_slice(len(self), index)
+        length = len(self)
+        if isinstance(index, int):
+            if index < -length or index >= length:
+                raise IndexError(f"index out of bounds: {index!r} for length {length}")
+            if index < 0:
+                index += length
+        elif index.step is None:
+            # like str: negative bounds count from the end, bounds past the end are clamped
+            index = slice(*index.indices(length)[:2])
+        index = normalize_slice(length, index)
         counter = 0
         parts = []
         for chunk in self.chunks:
